@@ -39,3 +39,14 @@ def encoding_unit():
         'prelude': [os.path.join(CONTRACTS, 'prelude_encoding.vrs')],
         'sidecar': [os.path.join(CONTRACTS, 'encoding.contracts')],
     }
+
+
+def loader_unit():
+    rw = [(r'\bsaphyr_parser::', 'crate::saphyr_parser::'), (r'\bhashlink::', 'crate::hashlink::')]
+    return {
+        'name': 'loader',
+        'mods': [ModSpec('loader', 'saphyr/src/loader.rs', 'loader.rs', path_rewrites=rw)],
+        'features': ['allocator_api'],
+        'prelude': [os.path.join(CONTRACTS, 'prelude_loader.vrs')],
+        'sidecar': [os.path.join(CONTRACTS, 'loader.contracts')],
+    }
